@@ -65,6 +65,9 @@ class Cls:
                 for d in m.decorator_list:
                     if isinstance(d, ast.Name) and d.id == 'property':
                         kind = 'getter'
+                    elif (isinstance(d, ast.Name) and d.id == 'cached_property') or \
+                            (isinstance(d, ast.Attribute) and d.attr == 'cached_property'):
+                        kind = 'getter'         # read like a property; the caching is judged by gscan/memo.py
                     elif isinstance(d, ast.Attribute) and d.attr == 'setter':
                         kind = 'setter'
                     elif isinstance(d, ast.Name) and d.id in ('staticmethod', 'classmethod'):
